@@ -42,6 +42,8 @@ LOCAL ITy(nm, kind) == [name |-> nm, kind |-> kind, desc |-> "", fields |-> <<>>
 LOCAL IF_(n, t) == [name |-> n, type |-> t, args |-> <<>>, dep |-> "", desc |-> "", nil |-> FALSE]
 LOCAL IncDep == << [name |-> "includeDeprecated", type |-> TNamed("Boolean"), hasDef |-> TRUE,
                     def |-> BoolV(FALSE), desc |-> "", nil |-> FALSE] >>
+\* the enum value whose internal value is v: same token AND same Go kind (1 is not "1")
+IsInternalOf(ev, v) == ev.internal = v.v /\ ("n" \notin DOMAIN v \/ ev.ik = v.n)
 LOCAL IV(n) == [name |-> n, internal |-> n, ik |-> "str", dep |-> "", desc |-> "", nil |-> FALSE]
 LOCAL NL(n) == TNN(TList(TNN(TNamed(n))))     \* [n!]!
 LOCAL LN(n) == TList(TNN(TNamed(n)))          \* [n!]
@@ -137,7 +139,7 @@ Lits(S, t, v) ==
     CASE kd = "ENUM" ->
            IF v.k # "eint" THEN {}
            ELSE { EnumV(S.types[t.n].values[i].name) :
-                    i \in { j \in 1..Len(S.types[t.n].values) : S.types[t.n].values[j].internal = v.v } }
+                    i \in { j \in 1..Len(S.types[t.n].values) : IsInternalOf(S.types[t.n].values[j], v) } }
       [] kd = "INPUT_OBJECT" ->
            IF v.k # "obj" THEN {}
            ELSE LET defs == S.types[t.n].inputs
@@ -167,7 +169,7 @@ DefaultLiteral(S, t, v) ==
   ELSE IF IsListT(t) THEN ListV([i \in 1..Len(v.items) |-> DefaultLiteral(S, Unwrap(t), v.items[i])])
   ELSE LET kd == KindOf(S, t.n) IN
     CASE kd = "ENUM" -> EnumV(S.types[t.n].values[CHOOSE j \in 1..Len(S.types[t.n].values) :
-                                                     S.types[t.n].values[j].internal = v.v].name)
+                                                     IsInternalOf(S.types[t.n].values[j], v)].name)
       [] kd = "INPUT_OBJECT" ->
            ObjV([i \in 1..Len(v.fields) |->
                    [n |-> v.fields[i].n,
@@ -195,7 +197,7 @@ UntypedLit(S, t, v) ==
     [] v.k = "bool" -> BoolV(v.b)
     [] v.k = "eint" ->
          LET vs == S.types[t.n].values
-             e == vs[CHOOSE j \in 1..Len(vs) : vs[j].internal = v.v]
+             e == vs[CHOOSE j \in 1..Len(vs) : IsInternalOf(vs[j], v)]
          IN IF e.ik = "int" THEN IntV(v.v) ELSE StrV(v.v)
     [] OTHER -> StrV(GoFmt(v))
 
@@ -337,12 +339,21 @@ Image(cfg) == ImageOf(cfg, SchemaOf(cfg), TypeNames(cfg))
 \* ------------------------------------------------- theorems about the image
 ArgImagesOfTypes(ts) == UNION { UNION { f.args : f \in t.fields } \cup t.inputs : t \in ts }
 
+\* Coerce.tla's internal values carry the token only; the Go kind of an enum's internal value (field n) is dropped
+\* before comparing with them
+RECURSIVE StripKind(_)
+StripKind(v) ==
+  CASE v.k = "eint" -> [k |-> "eint", v |-> v.v]
+    [] v.k = "list" -> [v EXCEPT !.items = [i \in 1..Len(v.items) |-> StripKind(v.items[i])]]
+    [] v.k = "obj"  -> [v EXCEPT !.fields = [i \in 1..Len(v.fields) |-> [n |-> v.fields[i].n, v |-> StripKind(v.fields[i].v)]]]
+    [] OTHER -> v
+
 LawHolds(S, a) ==
   a.hasDef =>
     /\ a.lits # {}
     /\ DefaultLiteral(S, a.type, a.def) \in a.lits
-    /\ \A l \in a.lits : LitOK(S, a.type, l) /\ CoerceLit(S, a.type, l, <<>>) = a.def
-    /\ \A i \in 1..Len(a.dev) : ~(LitOK(S, a.type, a.dev[i].lit) /\ CoerceLit(S, a.type, a.dev[i].lit, <<>>) = a.def)
+    /\ \A l \in a.lits : LitOK(S, a.type, l) /\ CoerceLit(S, a.type, l, <<>>) = StripKind(a.def)
+    /\ \A i \in 1..Len(a.dev) : ~(LitOK(S, a.type, a.dev[i].lit) /\ CoerceLit(S, a.type, a.dev[i].lit, <<>>) = StripKind(a.def))
 
 \* every acceptable literal satisfies the law of the property, with Coerce.tla's operators,
 \* the plain rendering is among them, and no deviated literal satisfies the law
